@@ -168,10 +168,10 @@ def without_vois(md):
     return m
 
 
-def case_record(md, ref, runs, cfgs):
+def case_record(md, ref, runs, cfgs, adj=None, jv=None, rel=None):
     return {'M': semiflat(md),
             'ref': {'out': [[rj(x) for x in v] for v in ref['out']],
                     'full': [[[rj(x) for x in row] for row in m] for m in ref_full(md, ref)]},
             'vois': {'of': [voi_record(md, r) for r in md['responses']] or [{'out': 1, 'idx': {'k': 'none'}, 'flat': False, 'scaler': [1, 1], 'adder': [0, 1]}],
                      'wrt': [voi_record(md, d) for d in md['desvars']] or [{'out': 1, 'idx': {'k': 'none'}, 'flat': False, 'scaler': [1, 1], 'adder': [0, 1]}]},
-            'runs': runs, 'cfgs': cfgs}
+            'runs': runs, 'cfgs': cfgs, 'adj': adj or [], 'jv': jv or [], 'rel': rel or []}
